@@ -279,6 +279,13 @@ script_full(int i)
 	sched_point();
 	ovni_flush();
 	ovni_attr_set_double("verif.k", (double) (i + 7));
+	/* the metadata written out in the middle of the life, and a mark type of the thread's own */
+	sched_point();
+	ovni_attr_flush();
+	ovni_mark_type(i, OVNI_MARK_STACK, i ? "mark-b" : "mark-a");
+	ovni_mark_label(i, 1 + i, "one");
+	ovni_mark_push(i, 1 + i);
+	ovni_mark_pop(i, 1 + i);
 	emit("OB.", pay, 2);
 	emit("OHe", NULL, 0);
 	sched_point();
